@@ -217,7 +217,7 @@ package task
 //@   deferrule deferRegistered => deferRan
 //@   requires forall j {deferRegistered(t, j)} :: !deferRegistered(t, j)
 //@   ensures forall j {deferRan(t, j)} :: deferRegistered(t, j) ==> deferRan(t, j)                   [C14]
-//@   ensures result == nil ==> e.ForceAll || (!call.Indirect && e.Force) || precondsOK(call)          [C13]
+//@   ensures result == nil ==> precondsOK(call)   -- forced or not          [C13]
 //@   init sawExit := false
 //@   init sawCode := 0
 //@   site IsExitStatus#1 ghost sawExit := result.1 && !t.IgnoreError
